@@ -1,9 +1,194 @@
 package main
 
-// yaml.v2 model: not yet built; calls abort the path as unsupported.
+// yaml.v2 model (used by the -yaml legs of C14). Same structural scheme as the JSON model:
+// Marshal yields a token (or concrete text through the real yaml.v2), Unmarshal accepts concrete
+// text (real yaml.v2) or blanks around one YAML token. Deviation from the real decoder, stated:
+// numbers decode to float64 (the real decoder yields int for integral values); jd's only
+// consumer, NewJsonNode, converts both to the same jsonNumber.
 
-func (e *Engine) registerYamlModels() {}
+import (
+	"fmt"
+	"go/types"
+	"math"
+	"sort"
+
+	"golang.org/x/tools/go/ssa"
+	yaml "gopkg.in/yaml.v2"
+)
+
+func (in *Interp) nativeOfJ(j *JVal, m Model) interface{} {
+	ev := func(t *Term) uint64 {
+		if t.IsConst() {
+			return t.val
+		}
+		v, ok := t.Eval(m)
+		if !ok {
+			panic("nativeOfJ: cannot evaluate")
+		}
+		return v
+	}
+	switch j.kind {
+	case 'n':
+		return nil
+	case 'b':
+		return ev(j.b) == 1
+	case 'f':
+		return math.Float64frombits(ev(j.f))
+	case 's':
+		bs := make([]byte, len(j.s.elems))
+		for i, e := range j.s.elems {
+			bs[i] = byte(ev(e.b))
+		}
+		return string(bs)
+	case 'a':
+		out := make([]interface{}, len(j.arr))
+		for i, e := range j.arr {
+			out[i] = in.nativeOfJ(e, m)
+		}
+		return out
+	case 'o':
+		out := map[string]interface{}{}
+		for i, k := range j.keys {
+			out[k] = in.nativeOfJ(j.vals[i], m)
+		}
+		return out
+	}
+	return nil
+}
 
 func (in *Interp) renderYamlJ(j *JVal, m Model) string {
-	panic(unsupported("yaml rendering"))
+	b, err := yaml.Marshal(in.nativeOfJ(j, m))
+	if err != nil {
+		panic(unsupported("yaml.Marshal: " + err.Error()))
+	}
+	return string(b)
+}
+
+func jvalOfYamlNative(in *Interp, x interface{}) *JVal {
+	switch x := x.(type) {
+	case nil:
+		return &JVal{kind: 'n'}
+	case bool:
+		return &JVal{kind: 'b', b: in.tt.Bool(x)}
+	case int:
+		return &JVal{kind: 'f', f: in.tt.FPConst(float64(x))}
+	case int64:
+		return &JVal{kind: 'f', f: in.tt.FPConst(float64(x))}
+	case uint64:
+		return &JVal{kind: 'f', f: in.tt.FPConst(float64(x))}
+	case float64:
+		return &JVal{kind: 'f', f: in.tt.FPConst(x)}
+	case string:
+		return &JVal{kind: 's', s: in.strConst(x)}
+	case []interface{}:
+		j := &JVal{kind: 'a', arr: make([]*JVal, len(x))}
+		for i, e := range x {
+			j.arr[i] = jvalOfYamlNative(in, e)
+		}
+		return j
+	case map[interface{}]interface{}:
+		type kv struct {
+			k string
+			v interface{}
+		}
+		var kvs []kv
+		for k, v := range x {
+			ks, ok := k.(string)
+			if !ok {
+				panic(unsupported(fmt.Sprintf("yaml map key of type %T", k)))
+			}
+			kvs = append(kvs, kv{ks, v})
+		}
+		sort.Slice(kvs, func(i, j int) bool { return kvs[i].k < kvs[j].k })
+		j := &JVal{kind: 'o'}
+		for _, e := range kvs {
+			j.keys = append(j.keys, e.k)
+			j.vals = append(j.vals, jvalOfYamlNative(in, e.v))
+		}
+		return j
+	}
+	panic(unsupported(fmt.Sprintf("yaml value of type %T", x)))
+}
+
+var tMapII = types.NewMap(tEmptyIface, tEmptyIface)
+
+// yamlDecoded: yaml.v2's shapes for interface{} targets (maps are map[interface{}]interface{}).
+func (in *Interp) yamlDecoded(j *JVal) Value {
+	switch j.kind {
+	case 'n':
+		return Iface{}
+	case 'b':
+		return Iface{t: types.Typ[types.Bool], v: j.b}
+	case 'f':
+		return Iface{t: types.Typ[types.Float64], v: j.f}
+	case 's':
+		return Iface{t: types.Typ[types.String], v: j.s}
+	case 'a':
+		out := make([]Value, len(j.arr))
+		for i, e := range j.arr {
+			out[i] = in.yamlDecoded(e)
+		}
+		return Iface{t: tSliceI, v: Slice{v: out}}
+	case 'o':
+		m := &MapObj{}
+		for i, k := range j.keys {
+			m.ents = append(m.ents, &mapEnt{k: Iface{t: types.Typ[types.String], v: in.strConst(k)}, v: in.yamlDecoded(j.vals[i])})
+		}
+		return Iface{t: tMapII, v: MapRef{m: m}}
+	}
+	return Iface{}
+}
+
+func (e *Engine) registerYamlModels() {
+	m := e.models
+	m["gopkg.in/yaml.v2.Marshal"] = func(in *Interp, fn *ssa.Function, a []Value) (res Value) {
+		defer func() {
+			if r := recover(); r != nil {
+				if me, ok := r.(marshalErr); ok {
+					res = Tuple{Slice{}, in.newError(in.strConst("yaml: " + me.msg))}
+					return
+				}
+				panic(r)
+			}
+		}()
+		v := a[0].(Iface)
+		var j *JVal
+		if v.t == nil {
+			j = &JVal{kind: 'n'}
+		} else {
+			j = in.jvalOf(v.v, v.t)
+		}
+		if j.concrete() {
+			return Tuple{bytesOfElems(in.strConst(in.renderYamlJ(j, nil)).elems), Iface{}}
+		}
+		return Tuple{bytesOfElems([]SElem{{tok: &Tok{val: j, yaml: true}}}), Iface{}}
+	}
+	m["gopkg.in/yaml.v2.Unmarshal"] = func(in *Interp, fn *ssa.Function, a []Value) Value {
+		data := Str{elems: elemsOfBytes(a[0].(Slice))}
+		dst := a[1].(Iface)
+		p := dst.v.(Ptr)
+		var j *JVal
+		if c, ok := data.concrete(); ok {
+			var x interface{}
+			if err := yaml.Unmarshal([]byte(c), &x); err != nil {
+				return in.newError(in.strConst(err.Error()))
+			}
+			j = jvalOfYamlNative(in, x)
+		} else {
+			es := data.elems
+			for len(es) > 0 && isBlank(es[0]) {
+				es = es[1:]
+			}
+			for len(es) > 0 && isBlank(es[len(es)-1]) {
+				es = es[:len(es)-1]
+			}
+			if len(es) != 1 || es[0].tok == nil {
+				panic(unsupported("YAML decode of text mixing bytes and tokens"))
+			}
+			// a JSON token is valid YAML (flow style) for the value trees used here
+			j = es[0].tok.val
+		}
+		*p.p = in.yamlDecoded(j)
+		return Iface{}
+	}
 }
